@@ -144,11 +144,11 @@ class SymCtx(_CtxBase):
     symbolic = True
 
     # arithmetic / order on possibly symbolic scalars (contract expressions)
-    def add(self, a, b): return M.binop(self.it, _OPS["add"], a, b) if (isinstance(a, Sym) or isinstance(b, Sym)) else a + b
-    def sub(self, a, b): return M.binop(self.it, _OPS["sub"], a, b) if (isinstance(a, Sym) or isinstance(b, Sym)) else a - b
-    def mul(self, a, b): return M.binop(self.it, _OPS["mul"], a, b) if (isinstance(a, Sym) or isinstance(b, Sym)) else a * b
-    def floordiv(self, a, b): return M.binop(self.it, _OPS["floordiv"], a, b) if (isinstance(a, Sym) or isinstance(b, Sym)) else a // b
-    def mod(self, a, b): return M.binop(self.it, _OPS["mod"], a, b) if (isinstance(a, Sym) or isinstance(b, Sym)) else a % b
+    def add(self, a, b): return M.binop(self.it, _OPS["add"], a, b) if (isinstance(a, (Sym, M.SymContainer)) or isinstance(b, (Sym, M.SymContainer))) else a + b
+    def sub(self, a, b): return M.binop(self.it, _OPS["sub"], a, b) if (isinstance(a, (Sym, M.SymContainer)) or isinstance(b, (Sym, M.SymContainer))) else a - b
+    def mul(self, a, b): return M.binop(self.it, _OPS["mul"], a, b) if (isinstance(a, (Sym, M.SymContainer)) or isinstance(b, (Sym, M.SymContainer))) else a * b
+    def floordiv(self, a, b): return M.binop(self.it, _OPS["floordiv"], a, b) if (isinstance(a, (Sym, M.SymContainer)) or isinstance(b, (Sym, M.SymContainer))) else a // b
+    def mod(self, a, b): return M.binop(self.it, _OPS["mod"], a, b) if (isinstance(a, (Sym, M.SymContainer)) or isinstance(b, (Sym, M.SymContainer))) else a % b
     def lt(self, a, b): return M.order(self.it, _CMP["lt"], a, b)
     def le(self, a, b): return M.order(self.it, _CMP["le"], a, b)
     def gt(self, a, b): return M.order(self.it, _CMP["gt"], a, b)
